@@ -107,6 +107,32 @@ theorem evict_node_checked (w : World) (f : Nat) (hmode : w.job.spec.direct = fa
     subst hs
     exact (hg hmode).2 hnc
 
+/-- the same over any history, any faults: an evictor call made in a reconcile that STARTED with no recorded
+    target node (`s.job0` = the persisted job at the start of that reconcile) never hits a pod on the
+    reservation's node.  This is exactly the complement of the known finding's input class. -/
+theorem evict_node_checked_history (ops : List Op) :
+    ∀ w : World, ∀ s ∈ (run w ops).2, s.job0.spec.direct = false → NCs s.job0.status →
+      ∀ r p, s.env.resv = some r → s.env.pod = some p → r.node ≠ 0 → r.node ≠ p.node := by
+  induction ops with
+  | nil => intro w s hs; cases hs
+  | cons op rest ih =>
+    intro w s hs hd hnc
+    simp only [run, List.mem_append] at hs
+    rcases hs with hs | hs
+    · cases op with
+      | recon f =>
+        simp only [step] at hs
+        have hj : s.job0 = w.job := by
+          rcases reconcile_evicts w f with h | ⟨m1, h, _⟩
+          · rw [h] at hs; cases hs
+          · rw [h] at hs
+            simp only [List.mem_singleton] at hs
+            subst hs; rfl
+        rw [hj] at hd hnc
+        exact evict_node_checked w f hd hnc s hs
+      | _ => simp [step] at hs
+    · exact ih _ s hs hd hnc
+
 /- FULL node clause of the statement: `∀ history, ∀ s ∈ (run w ops).2, reservation-first → r.node ≠ p.node`.
    It is FALSE for the code as written once the node has been recorded in an earlier reconcile (known finding
    C17:evict-unsecured:same-node:node-check-stale): the two witnesses below are a faulty history (the Evict call
